@@ -24,26 +24,26 @@ CHECKS = {
             "Structural: every file-system write site of the package is enumerated, dominated by 'output directory set' and rooted "
             "at it; the page path term is join(output, dirname(relpath), stem+'.rst') on every abstract path; recursion cut-off, "
             "filter pipeline (no mutation while iterating, in-place pruning, equal predicates, same filtered+sorted list) and per-file "
-            "isolation hold. Not decided: pathspec semantics, case-sensitive auto-exclusion pre-check. Also: toctree stem = page stem; filtering by rebinding the walk list is rejected.", "DESIGN.md 5/C13"),
+            "isolation hold. Not decided: pathspec semantics, case-sensitive auto-exclusion pre-check. Also: toctree stem = page stem; filtering by rebinding the walk list is rejected; nothing is created before the walk lists the tree; the index write is conditional on the output directory only. All rules read the helper-inlined, canonicalised AST.", "DESIGN.md 5/C13"),
     "C14": ("same-source / predicate-agreement / filter-agreement rules on the index block of document()",
             "Structural necessary conditions for closure: toctree entries and page production iterate the same exclusion-filtered, "
             "sorted lists with equal predicates; subdirectory entries come from the pruned list and only under `recursive`; both "
-            "'has a CMake file' checks see the filtered view; the top-directory test compares with '.'; options precede entries. Also: a toctree file entry is the same function of the file name as the page name (stem agreement).",
+            "'has a CMake file' checks see the filtered view; the top-directory test compares with '.'; options precede entries. Also: a toctree file entry is the same function of the file name as the page name (stem agreement); the index write has no further guard; settings are deep-copied per input.",
             "DESIGN.md 5/C14"),
     "C15": ("loop-mutation lint, os.walk pruning typestate, match-site census, early-return dominance",
             "All loops of the package: no list is mutated while iterated; pruning acts in place on the list os.walk yielded, "
             "top-down, before any rebinding; input path, each subdirectory (trailing separator) and each file are matched against "
-            "the one spec compiled from all sources; the early return precedes every effect. Not decided: gitignore semantics of pathspec.",
+            "the one spec compiled from all sources; the early return precedes every effect; the input path is matched in absolute form with a trailing separator for directories (forward dataflow over the prefix of document()); os.walk starts at that absolute path; -e patterns enter the list unconverted. Not decided: gitignore semantics of pathspec.",
             "DESIGN.md 5/C15"),
     "C17": ("taint dataflow (ABS/ORDER/ENV labels) to content sinks + shared-state effect analysis",
             "All flows in cminx/__init__.py and Documenter.__init__: no value derived from an absolute location, an unsorted "
             "listing, time/random/hash/env reaches a title, module name, toctree entry, printed page or the order of page "
             "production; settings are deep-copied per input, never written through; no module/class-level state or shared "
-            "default-argument object is mutated on the processing path. A keyed (hence tie-preserving) sort does not remove the ORDER label.", "DESIGN.md 5/C17"),
+            "default-argument object is mutated on the processing path. A keyed (hence tie-preserving) sort does not remove the ORDER label. Package-wide: no order-sensitive consumer of a set (positive control), no absolute location interpreted as glob/fnmatch/regex pattern, walk root absolute.", "DESIGN.md 5/C17"),
     "C18": ("write-site census with guard dominance and rooting, deletion-call census with positive control, stdout/file branch terms",
             "All call sites: every creator is dominated by 'output directory is not None' and writes below it, the package contains "
             "no deletion/rename call, the stdout branch prints exactly str(writer)+'\\n' of the processed page and touches no file, "
-            "index writers are never printed, info-level logging is guarded by output mode. Also: the output directory is resolved against the cwd of the run (or the config file), and pages of a directory are produced in sorted order.", "DESIGN.md 5/C18"),
+            "index writers are never printed, info-level logging is guarded by output mode. Also: the output directory is resolved against the cwd of the run (or the config file), and pages of a directory are produced in sorted order; -o outranks the -s file (source order); no pruning, skip or page production inside the walk is conditional on the output directory.", "DESIGN.md 5/C18"),
     "C20": ("purity effect analysis, template line-start analysis, indent plumbing terms, heading length domain, emission order",
             "All methods of rstwriter.py: serialisation methods are pure; every physical line of Paragraph/Field/RSTList/"
             "DirectiveHeading/Option starts with the element's indent; indents are get_indents(level) with level+1 inside "
@@ -99,7 +99,7 @@ CHECKS.update({
             "DESIGN.md 5/C10"),
     "C11": ("keyword-scan loop summaries + value-filter lint + sibling clone diff + render terms",
             "All three processors: NAME/EXPECTFAIL scans have the prescribed guard and index, CMakeTest siblings are alpha-equal, the CTest "
-            "signature excludes by position, EXPECTFAIL shown iff flag, three distinct warnings, one entry per test/section event.",
+            "signature excludes by position, EXPECTFAIL shown iff flag, three distinct warnings, one entry per test/section event (documented commands: under every flag valuation), every entry rendered once in list order. The NAME lookup may be a scan loop or a position comprehension; siblings are compared on evaluated terms.",
             "DESIGN.md 5/C11"),
     "C12": ("path-sensitive title/module terms of document_single_file, taint to names, heading length domain, module-entry effects, ATN token facts",
             "Structural: on every abstract path title and module are [ext-strip iff option off]([prefix+sep+] relpath|basename); no ABS "
